@@ -79,9 +79,9 @@ def match_triple(rows, angle):
     return None, reason
 
 
-def check_site(ck, name, spec, basic):
+def check_site(ck, name, spec, basic, entry=None):
     repo = ck.repo
-    fn = repo.fn(name, module=spec["module"])
+    fn = repo.fn(entry or name, module=spec["module"])
     params = fn.params
     caps = [p for p in params if p not in NON_CAP]
     if not caps:
@@ -90,8 +90,8 @@ def check_site(ck, name, spec, basic):
     if "basic_evse" not in params:
         raise AnalysisError(f"{name}: parameter basic_evse vanished")
     over["basic_evse"] = basic
-    net, _ = evaluate_site(repo, spec["module"], name, **over)
-    tag = f"{name}(basic_evse={basic})"
+    net, _ = evaluate_site(repo, spec["module"], entry or name, **over)
+    tag = f"{entry or name}(basic_evse={basic})"
     ck.count("evaluated EVSE registrations", len(net.evses))
     ck.count("evaluated constraints", len(net.cons))
     if len(net.evses) < MIN_EVSES[name]:
@@ -184,6 +184,7 @@ def check_site(ck, name, spec, basic):
         if hit:
             ck.require(set(hit[0][1]) == cc, "C16.F4", fn, f"{tag}: 'CC Pod' membership", ok="the CC pod constraint covers exactly the ClipperCreek EVSEs",
                        bad=f"CC pod constraint and ClipperCreek registrations differ: {sorted(set(hit[0][1]) ^ cc)[:6]}", sink="ccpod:members")
+    panel_sets = {}
     for panel, rating in spec["panels"].items():
         rows = [r for r in const_rows if r[0].startswith(panel + " ")]
         ck.require(len(rows) == 3, "C16.F4", fn, f"{tag}: panel {panel!r}", ok="three per-phase constraints", bad=f"{len(rows)} constraints for panel {panel!r} (need 3)",
@@ -198,9 +199,18 @@ def check_site(ck, name, spec, basic):
                        ok=f"limit {lim} A <= rating {rating} A", bad=f"limit {lim} exceeds the panel's {rating} A rating", sink=f"{basic}:{cname}:limit")
         if groups:
             s = set().union(*groups)
+            panel_sets[panel] = s
             inside = [c for c, ts in transformer_sets if s <= ts]
             ck.require(bool(inside), "C16.F4", fn, f"{tag}: panel {panel!r} stations", ok=f"the panel's stations all hang off transformer {inside[:1]}",
                        bad="the panel's stations are not a subset of one transformer's station set", sink=f"{basic}:{panel}:subset")
+    for (p1, s1), (p2, s2) in itertools.combinations(sorted(panel_sets.items()), 2):
+        ck.require(not (s1 & s2), "C16.F4", fn, f"{tag}: panels {p1!r} / {p2!r}", ok="distinct panels constrain disjoint station sets",
+                   bad=f"the constraints named {p1!r} and {p2!r} bound the same stations {sorted(s1 & s2)[:4]}...: one of the two panels is in fact left without its "
+                       f"current limit", sink=f"{basic}:{p1}|{p2}:disjoint")
+    pod_sets = {r[0]: set(r[1]) for r in const_rows if r[0] in spec["pods"]}
+    for (p1, s1), (p2, s2) in itertools.combinations(sorted(pod_sets.items()), 2):
+        ck.require(not (s1 & s2), "C16.F4", fn, f"{tag}: pods {p1!r} / {p2!r}", ok="distinct pods constrain disjoint station sets",
+                   bad=f"pods {p1!r} and {p2!r} bound the same stations", sink=f"{basic}:{p1}|{p2}:disjoint")
     known = set(spec["pods"]) | {f"{p} I_{x}" for p in spec["panels"] for x in "abc"}
     for cname, row, lim in const_rows:
         if cname not in known:
@@ -272,4 +282,17 @@ def run(ck):
         ck.require([(e[0], e[3]) for e in nets[False].evses] == [(e[0], e[3]) for e in nets[True].evses], "C16.F1", fn,
                    f"{name}: registrations of the two variants", ok="same stations and angles", bad="stations/angles depend on basic_evse",
                    sink="variants-agree-evses")
+    # backward-compatibility wrappers must forward every parameter (capacity included) to the factory
+    for name, spec in SITES.items():
+        rel, tree = ck.repo.module_tree(spec["module"])
+        for nd in tree.body:
+            if isinstance(nd, ast.FunctionDef) and nd.name != name and "basic_evse" in [a.arg for a in nd.args.args] and \
+                    any(isinstance(c, ast.Call) and call_name(c) == name for c in ast.walk(nd)):
+                ck.count("wrappers evaluated", 1)
+                for basic in (False, True):
+                    check_site(ck, name, spec, basic, entry=nd.name)
     rule_simple(ck)
+    # the property is about every schedule "the network reports feasible", in both modes of the check: the phase-aware sum and the
+    # linear relaxation must be the ones C06 establishes (abs on the coefficients, deg2rad, per constraint and period)
+    from .c06 import rule_network
+    rule_network(ck)
